@@ -170,6 +170,10 @@ func runC16(c *Ctx) {
 			}
 			c.Check(denomOK, fk(f, "allowed-denoms-only"), get, "denoms iterated = registered reward denoms ++ this consumer's allow-listed denoms")
 			c.Check(id(arg(get, 1)) && id(arg(al, 1)) && id(arg(set, 1)) && id(arg(del, 1)), fk(f, "same-consumer"), al, "read, allocate and write back the same consumer")
+			cached := PCall("sdk.Context.CacheContext", 0, PParam("ctx"))
+			for _, op := range []ssa.CallInstruction{get, al, set, del} {
+				c.Check(cached(arg(op, 0)), fk(f, "on-cached-context", shortName(calleeName(op))), op, "runs on the per-(consumer, denom) cached context, so a later failure discards the payout; found "+describe(arg(op, 0)))
+			}
 			c.Check(sameVal(arg(get, 2), arg(set, 2)) && sameVal(arg(get, 2), arg(del, 2)), fk(f, "same-denom"), set, "read and write back the same denom")
 			c.Check(PIs(extractOf(get, 0))(arg(al, 2)), fk(f, "allocates-stored-credit"), al, "the amount allocated is the stored credit")
 			c.Check(PIs(extractOf(al, 0))(arg(set, 3)), fk(f, "writes-back-remainder"), set, "what is written back is AllocateConsumerRewards' remaining allocation")
